@@ -11,7 +11,6 @@ import (
 
 	"verifharness/ev"
 	"verifharness/gen"
-	"verifharness/model"
 	"verifharness/mon"
 	"verifharness/trigkit"
 )
@@ -406,427 +405,8 @@ func genTrigCase(t *rapid.T) c17TrigCase {
 	return c
 }
 
-// ================================================================================================================
-// (b) node level: nodes.CustomTriggerGroupBy over a scripted, marked source
-// ================================================================================================================
-
-type c17NodeCase struct {
-	Spec trigkit.GroupBySpec `json:"spec"`
-	Msgs []mon.Msg           `json:"msgs"`
-}
-
-func (c c17NodeCase) String() string {
-	aggs := make([]string, len(c.Spec.Aggs))
-	for i, a := range c.Spec.Aggs {
-		if a.Col < 0 {
-			aggs[i] = a.Name + "(*)"
-		} else {
-			aggs[i] = a.Name + "(" + trigkit.Cols[a.Col] + ")"
-		}
-	}
-	keys := make([]string, len(c.Spec.Keys))
-	for i, k := range c.Spec.Keys {
-		keys[i] = trigkit.Cols[k]
-	}
-	return fmt.Sprintf("GROUP BY %s [time key index %d] aggregates %s TRIGGER %s over (t,k,x,y) stream: %s",
-		strings.Join(keys, ","), c.Spec.TimeKey, strings.Join(aggs, ","), trigString(c.Spec.Trig), mon.FormatMsgs(c.Msgs))
-}
-
-func validSpec(s trigkit.GroupBySpec) bool {
-	if !validTrig(s.Trig) || len(s.Keys) == 0 || len(s.Aggs) == 0 {
-		return false
-	}
-	for _, k := range s.Keys {
-		if k < 0 || k >= len(trigkit.Cols) {
-			return false
-		}
-	}
-	if s.TimeKey >= len(s.Keys) || (s.TimeKey >= 0 && s.Keys[s.TimeKey] != 0) {
-		return false
-	}
-	if hasKind(s.Trig, "watermark") && s.TimeKey < 0 {
-		return false // logical.WatermarkTrigger.Typecheck refuses this
-	}
-	for _, a := range s.Aggs {
-		if a.Col >= len(trigkit.Cols) {
-			return false
-		}
-		if a.Col >= 0 && a.Kind != trigkit.Kinds[a.Col] {
-			return false
-		}
-	}
-	return true
-}
-
-// visRow is one currently visible (consolidated) output row.
-type visRow struct {
-	n     int
-	keyID string
-	tm    int64
-	str   string
-}
-
-// consolidate folds output messages into visible rows, flagging a retraction of an absent row.
-func consolidate(outs []mon.Out, spec trigkit.GroupBySpec) (map[string]*visRow, error) {
-	vis := map[string]*visRow{}
-	for i, o := range outs {
-		if o.IsWM {
-			continue
-		}
-		rk := mon.RowKey(o.Rec.Values)
-		v := vis[rk]
-		if o.Rec.Retraction {
-			if v == nil || v.n <= 0 {
-				return nil, fmt.Errorf("output message #%d retracts a row that is not currently present: %s", i, o.Rec.String())
-			}
-			v.n--
-			if v.n == 0 {
-				delete(vis, rk)
-			}
-			continue
-		}
-		if v == nil {
-			v = &visRow{keyID: mon.RowKey(o.Rec.Values[:len(spec.Keys)]), str: rk}
-			if spec.TimeKey >= 0 {
-				v.tm = o.Rec.Values[spec.TimeKey].Time.UnixNano()
-			}
-			vis[rk] = v
-		}
-		v.n++
-	}
-	return vis, nil
-}
-
-func visString(vis map[string]*visRow) string {
-	b := mon.Bag{}
-	for k, v := range vis {
-		b[k] = v.n
-	}
-	return b.String()
-}
-
-type keyState struct {
-	id    string
-	tm    int64
-	rows  [][]gen.JV // net rows of the group
-	count int        // records (insertions and retractions) received
-}
-
-func (ks *keyState) apply(m mon.Msg) {
-	ks.count++
-	if !m.Retr {
-		ks.rows = append(ks.rows, m.Vals)
-		return
-	}
-	rk := mon.RowKey(gen.Octs(m.Vals))
-	for j, r := range ks.rows {
-		if mon.RowKey(gen.Octs(r)) == rk {
-			ks.rows = append(ks.rows[:j:j], ks.rows[j+1:]...)
-			return
-		}
-	}
-	panic("harness: retraction of an absent row reached the model (ValidChangelog should have discarded the case)")
-}
-
-type groups struct {
-	spec  trigkit.GroupBySpec
-	aggs  []model.AggRef
-	byID  map[string]*keyState
-	order []string
-}
-
-func newGroups(spec trigkit.GroupBySpec) *groups {
-	g := &groups{spec: spec, byID: map[string]*keyState{}}
-	for _, a := range spec.Aggs {
-		g.aggs = append(g.aggs, model.AggRef{Name: a.Name, Col: a.Col})
-	}
-	return g
-}
-
-func (g *groups) of(m mon.Msg) *keyState {
-	kv := make([]gen.JV, len(g.spec.Keys))
-	for i, c := range g.spec.Keys {
-		kv[i] = m.Vals[c]
-	}
-	id := mon.RowKey(gen.Octs(kv))
-	ks := g.byID[id]
-	if ks == nil {
-		ks = &keyState{id: id}
-		if g.spec.TimeKey >= 0 {
-			ks.tm = kv[g.spec.TimeKey].I
-		}
-		g.byID[id] = ks
-		g.order = append(g.order, id)
-	}
-	return ks
-}
-
-// current is the group's current result row as a canonical string, "" when the group has no rows.
-func (g *groups) current(ks *keyState) string {
-	if len(ks.rows) == 0 {
-		return ""
-	}
-	rows := model.GroupRows(g.spec.Keys, g.aggs, ks.rows)
-	return mon.RowKey(gen.Octs(rows[0]))
-}
-
-func c17NodeProp(c c17NodeCase) ev.Outcome {
-	if !validSpec(c.Spec) || trigkit.ValidStream(c.Msgs) != nil {
-		return ev.Outcome{Discard: true}
-	}
-	spec := c.Spec
-	outs, marks, err := trigkit.RunMarked(c.Msgs, spec.CustomTrigger)
-	if err != nil {
-		return ev.Fail("%s\n  the node failed: %v", c.String(), err)
-	}
-	counting, wmTrig := hasKind(spec.Trig, "counting"), hasKind(spec.Trig, "watermark")
-	var countN uint
-	for _, t := range spec.Trig {
-		if t.Kind == "counting" {
-			countN = t.N
-		}
-	}
-
-	src := newGroups(spec)  // everything the source has sent so far
-	seen := newGroups(spec) // what has passed the event time buffer, in the order the grouping receives it
-	ref := newRef(spec.Trig)
-	visible := map[string]string{} // model: key id -> visible row
-	fires := map[string]int{}
-	firesTwice, receivedAfterFire, emittedTwiceBeforeEnd := false, false, false
-	var buffer []mon.Msg
-	ending := false
-	wmStatementChecked, countingStatementChecked := false, false
-
-	fire := func(ids []string, beforeEnd bool) {
-		for _, id := range asSet(ids) {
-			fires[id]++
-			if fires[id] >= 2 {
-				firesTwice = true
-				if beforeEnd && !ending {
-					emittedTwiceBeforeEnd = true
-				}
-			}
-			if cur := seen.current(seen.byID[id]); cur != "" {
-				visible[id] = cur
-			} else {
-				delete(visible, id)
-			}
-		}
-	}
-	receive := func(m mon.Msg) {
-		ks := seen.of(m)
-		if fires[ks.id] > 0 {
-			receivedAfterFire = true
-		}
-		ks.apply(m)
-		ref.key(refKey{id: ks.id, tm: ks.tm})
-		fire(ref.poll(), true)
-	}
-	release := func(upTo int64, all bool) {
-		// event time order, arrival order among equal event times
-		for {
-			best := -1
-			for j, m := range buffer {
-				if (all || m.T <= upTo) && (best == -1 || m.T < buffer[best].T) {
-					best = j
-				}
-			}
-			if best == -1 {
-				return
-			}
-			m := buffer[best]
-			buffer = append(buffer[:best:best], buffer[best+1:]...)
-			receive(m)
-		}
-	}
-	compare := func(upto int, when string) (map[string]*visRow, *ev.Outcome) {
-		vis, err := consolidate(outs[:upto], spec)
-		if err != nil {
-			o := ev.Fail("%s\n  %s: %v\n  output: %s", c.String(), when, err, mon.FormatOuts(outs[:upto]))
-			return nil, &o
-		}
-		want := mon.Bag{}
-		for _, row := range visible {
-			want[row]++
-		}
-		got := mon.Bag{}
-		for k, v := range vis {
-			got[k] = v.n
-		}
-		if !got.Equal(want) {
-			o := ev.Fail("%s\n  %s the consolidated output is %s, but the triggers specified must have produced %s\n  output so far: %s",
-				c.String(), when, got.String(), want.String(), mon.FormatOuts(outs[:upto]))
-			return nil, &o
-		}
-		return vis, nil
-	}
-
-	for i, m := range c.Msgs {
-		when := fmt.Sprintf("after input message %d (%s)", i+1, m.String())
-		switch m.Kind {
-		case "rec":
-			sk := src.of(m)
-			sk.apply(m)
-			if m.T == 0 {
-				receive(m)
-			} else {
-				buffer = append(buffer, m)
-			}
-			vis, bad := compare(marks[i], when)
-			if bad != nil {
-				return *bad
-			}
-			// statement, directly: COUNTING n emits the key's current result after every n-th record for that key
-			// (untimed records reach the grouping immediately)
-			if counting && m.T == 0 && uint(sk.count)%countN == 0 {
-				countingStatementChecked = true
-				want := src.current(sk)
-				var got []string
-				for _, v := range vis {
-					if v.keyID == sk.id {
-						for j := 0; j < v.n; j++ {
-							got = append(got, v.str)
-						}
-					}
-				}
-				if (want == "" && len(got) != 0) || (want != "" && (len(got) != 1 || got[0] != want)) {
-					return ev.Fail("%s\n  %s: this is record number %d of key %s, so COUNTING %d must have emitted the key's current result (%s), the consolidated output holds %v for that key",
-						c.String(), when, sk.count, sk.id, countN, want, got)
-				}
-			}
-		case "wm":
-			release(m.T, false)
-			ref.watermark(m.T)
-			fire(ref.poll(), true)
-			vis, bad := compare(marks[i], when)
-			if bad != nil {
-				return *bad
-			}
-			forwarded := marks[i] > 0 && outs[marks[i]-1].IsWM && outs[marks[i]-1].WM.UnixNano() == m.T
-			if wmTrig && forwarded {
-				wmStatementChecked = true
-				// statement, directly: the output already holds the current result of every key at or below W ...
-				for _, id := range src.order {
-					sk := src.byID[id]
-					if sk.tm > m.T {
-						continue
-					}
-					want := src.current(sk)
-					var got []string
-					for _, v := range vis {
-						if v.keyID == id {
-							for j := 0; j < v.n; j++ {
-								got = append(got, v.str)
-							}
-						}
-					}
-					if (want == "" && len(got) != 0) || (want != "" && (len(got) != 1 || got[0] != want)) {
-						return ev.Fail("%s\n  watermark %d has been forwarded, key %s (time %d) is at or below it and its current result is %q, but the consolidated output holds %v for that key\n  output so far: %s",
-							c.String(), m.T, id, sk.tm, want, got, mon.FormatOuts(outs[:marks[i]]))
-					}
-				}
-				// ... and no key beyond W unless another trigger fired it
-				if !counting {
-					for _, v := range vis {
-						if v.tm > m.T {
-							return ev.Fail("%s\n  watermark %d has been forwarded and no other trigger can have fired yet, but the output already holds a row of key time %d: %s",
-								c.String(), m.T, v.tm, v.str)
-						}
-					}
-				}
-			}
-		}
-	}
-	// before the end of the stream, ON END OF STREAM alone must not have emitted anything
-	if len(spec.Trig) == 1 && spec.Trig[0].Kind == "eos" && len(marks) > 0 {
-		for _, o := range outs[:marks[len(marks)-1]] {
-			if !o.IsWM {
-				return ev.Fail("%s\n  ON END OF STREAM alone emitted %s before the stream ended", c.String(), o.Rec.String())
-			}
-		}
-	}
-	ending = true
-	release(0, true)
-	ref.endOfStream()
-	fire(ref.poll(), false)
-	vis, bad := compare(len(outs), "at the end of the stream")
-	if bad != nil {
-		return *bad
-	}
-	// statement, directly: ON END OF STREAM emits every remaining key (once) at the end
-	if hasKind(spec.Trig, "eos") {
-		want := mon.Bag{}
-		for _, id := range src.order {
-			if cur := src.current(src.byID[id]); cur != "" {
-				want[cur]++
-			}
-		}
-		got := mon.Bag{}
-		for k, v := range vis {
-			got[k] = v.n
-		}
-		if !got.Equal(want) {
-			return ev.Fail("%s\n  at the end of the stream ON END OF STREAM must leave every remaining key with its final result %s, the consolidated output is %s",
-				c.String(), want.String(), got.String())
-		}
-		if len(spec.Trig) == 1 {
-			start := 0
-			if len(marks) > 0 {
-				start = marks[len(marks)-1]
-			}
-			nrec := 0
-			for _, o := range outs[start:] {
-				if !o.IsWM {
-					nrec++
-					if o.Rec.Retraction {
-						return ev.Fail("%s\n  ON END OF STREAM alone emitted a retraction: %s", c.String(), o.Rec.String())
-					}
-				}
-			}
-			if nrec != len(want) {
-				return ev.Fail("%s\n  ON END OF STREAM alone emitted %d records at the end for %d remaining keys: %s", c.String(), nrec, len(want), mon.FormatOuts(outs[start:]))
-			}
-		}
-	}
-
-	o := ev.Outcome{NonTrivial: firesTwice || receivedAfterFire, Classes: []string{"node_trigger_" + trigClass(spec.Trig)}}
-	timed := false
-	for _, m := range c.Msgs {
-		if m.Kind == "wm" || m.T != 0 {
-			timed = true
-		}
-	}
-	if timed {
-		o.Classes = append(o.Classes, "node_timed_stream")
-	} else {
-		o.Classes = append(o.Classes, "node_untimed_stream")
-	}
-	if wmStatementChecked {
-		o.Classes = append(o.Classes, "node_forwarded_watermark_statement_checked")
-	}
-	if countingStatementChecked {
-		o.Classes = append(o.Classes, "node_counting_nth_record_statement_checked")
-	}
-	if firesTwice {
-		o.Classes = append(o.Classes, "node_key_fires_twice_or_more")
-	}
-	if emittedTwiceBeforeEnd {
-		o.Classes = append(o.Classes, "node_key_fires_twice_before_end")
-	}
-	if receivedAfterFire {
-		o.Classes = append(o.Classes, "node_key_received_again_after_firing")
-	}
-	for _, ks := range src.byID {
-		if len(ks.rows) == 0 {
-			o.Classes = append(o.Classes, "node_group_net_empty_at_end")
-			break
-		}
-	}
-	return o
-}
-
 var c17AggPool = []trigkit.AggSpec{
-	{Name: "count", Col: -1}, {Name: "count", Col: 2, Kind: "int"}, {Name: "sum", Col: 2, Kind: "int"}, {Name: "sum", Col: 2, Kind: "int"},
+	{Name: "count", Col: -1}, {Name: "count", Col: -1}, {Name: "count", Col: 2, Kind: "int"}, {Name: "sum", Col: 2, Kind: "int"}, {Name: "sum", Col: 2, Kind: "int"},
 	{Name: "avg", Col: 2, Kind: "int"}, {Name: "min", Col: 2, Kind: "int"}, {Name: "max", Col: 2, Kind: "int"},
 	{Name: "sum", Col: 3, Kind: "float"}, {Name: "avg", Col: 3, Kind: "float"}, {Name: "count_distinct", Col: 2, Kind: "int"},
 	{Name: "sum_distinct", Col: 2, Kind: "int"}, {Name: "array_agg", Col: 2, Kind: "int"}, {Name: "array_agg_distinct", Col: 3, Kind: "float"},
@@ -840,18 +420,92 @@ type keyChoice struct {
 
 var c17KeyChoices = []keyChoice{{[]int{0, 1}, 0}, {[]int{1, 0}, 1}, {[]int{0}, 0}, {[]int{1}, -1}, {[]int{0, 1}, 0}}
 
-func genNodeCase(t *rapid.T) c17NodeCase {
+// genTrigList: trigger lists as the TRIGGER clause allows them: any number of triggers, the same type several times.
+func genTrigList(t *rapid.T, watermarkOK bool) []trigkit.TrigSpec {
+	counting := func(label string) trigkit.TrigSpec {
+		return trigkit.TrigSpec{Kind: "counting", N: uint(rapid.IntRange(1, 4).Draw(t, label))}
+	}
+	other := func(label string) trigkit.TrigSpec {
+		if watermarkOK && rapid.Bool().Draw(t, label) {
+			return trigkit.TrigSpec{Kind: "watermark"}
+		}
+		return trigkit.TrigSpec{Kind: "eos"}
+	}
+	var trig []trigkit.TrigSpec
+	switch rapid.IntRange(0, 9).Draw(t, "list_shape") {
+	case 0, 1:
+		return genTrig(t, watermarkOK)
+	case 2, 3, 4, 5:
+		// two (or three) counting triggers with different parameters, possibly next to parameterless ones
+		a := counting("n1")
+		b := counting("n2")
+		for b.N == a.N {
+			b.N = b.N%4 + 1
+		}
+		trig = []trigkit.TrigSpec{a, b}
+		if rapid.IntRange(0, 3).Draw(t, "third_counting") == 0 {
+			trig = append(trig, counting("n3"))
+		}
+		for i := rapid.IntRange(0, 2).Draw(t, "others"); i > 0; i-- {
+			trig = append(trig, other("other"))
+		}
+	case 6:
+		// the same counting trigger twice
+		a := counting("n1")
+		trig = []trigkit.TrigSpec{a, a}
+		if rapid.Bool().Draw(t, "plus_other") {
+			trig = append(trig, other("other"))
+		}
+	case 7:
+		// a parameterless trigger repeated
+		a := other("other1")
+		trig = []trigkit.TrigSpec{a, a}
+		if rapid.Bool().Draw(t, "plus_more") {
+			trig = append(trig, other("other2"))
+		}
+		if rapid.Bool().Draw(t, "plus_counting") {
+			trig = append(trig, counting("n1"))
+		}
+	default:
+		n := rapid.IntRange(1, 4).Draw(t, "list_len")
+		for i := 0; i < n; i++ {
+			if rapid.Bool().Draw(t, "is_counting") {
+				trig = append(trig, counting("n"))
+			} else {
+				trig = append(trig, other("other"))
+			}
+		}
+	}
+	if len(trig) > 1 {
+		trig = rapid.Permutation(trig).Draw(t, "clause_order")
+	}
+	return trig
+}
+
+// genGroupByCase: lists = how many in ten cases draw a free trigger list (the others: at most one trigger of each type);
+// three in ten histories are delivered out of order (records moved between the same two watermarks).
+func genGroupByCase(t *rapid.T, lists int, maxLen int) c17NodeCase {
 	kc := rapid.SampledFrom(c17KeyChoices).Draw(t, "keys")
 	spec := trigkit.GroupBySpec{Keys: kc.keys, TimeKey: kc.timeKey}
-	spec.Trig = genTrig(t, kc.timeKey >= 0)
+	if rapid.IntRange(0, 9).Draw(t, "free_list") < lists {
+		spec.Trig = genTrigList(t, kc.timeKey >= 0)
+	} else {
+		spec.Trig = genTrig(t, kc.timeKey >= 0)
+	}
 	na := rapid.IntRange(1, 3).Draw(t, "naggs")
 	for i := 0; i < na; i++ {
 		spec.Aggs = append(spec.Aggs, rapid.SampledFrom(c17AggPool).Draw(t, "agg"))
 	}
 	mode := rapid.IntRange(0, 4).Draw(t, "stream_mode") // 0: untimed; 1,2: event time == t; 3,4: event time <= t
-	opts := trigkit.StreamOpts{Timed: mode > 0, Below: mode >= 3, MaxLen: 24}
-	return c17NodeCase{Spec: spec, Msgs: trigkit.Stream(t, opts)}
+	opts := trigkit.StreamOpts{Timed: mode > 0, Below: mode >= 3, MaxLen: maxLen}
+	msgs := trigkit.Stream(t, opts)
+	if rapid.IntRange(0, 9).Draw(t, "out_of_order") < 3 {
+		msgs = reorder(t, msgs)
+	}
+	return c17NodeCase{Spec: spec, Msgs: msgs}
 }
+
+func genNodeCase(t *rapid.T) c17NodeCase { return genGroupByCase(t, 3, 24) }
 
 func TestC17(t *testing.T) {
 	r := ev.New("C17", "exploration",
@@ -889,4 +543,16 @@ func TestC17(t *testing.T) {
 	}, c17TrigProp)
 	ev.Check(t, r, "api_random", ev.N(60000, 1500000), genTrigCase, c17TrigProp)
 	ev.Check(t, r, "node", ev.N(60000, 1500000), genNodeCase, c17NodeProp)
+	var nOrders int
+	c17Orders(func([]mon.Msg) bool { nOrders++; return true })
+	r.SetExtra("node_orders_per_trigger_list", nOrders)
+	ev.Enumerate(t, r, "node_orders_exhaustive", func(yield func(c17NodeCase) bool) {
+		for _, trig := range c17OrderTrigs {
+			spec := trigkit.GroupBySpec{Keys: []int{1}, TimeKey: -1, Aggs: c17OrderAggs, Trig: trig}
+			if !c17Orders(func(msgs []mon.Msg) bool { return yield(c17NodeCase{Spec: spec, Msgs: msgs}) }) {
+				return
+			}
+		}
+	}, c17NodeProp)
+	ev.Check(t, r, "sql_trigger_lists", ev.N(8000, 250000), genSQLCase, c17SQLProp)
 }
